@@ -34,7 +34,7 @@ correct implementation cannot trip it, while a wrong gate (1e-2 instead of 1e-4)
 import struct, math
 from fractions import Fraction as Fr
 
-RULE = ("(round 4: a root at 0 with one bracket end 1..60 units of 2^-1074 [or of 2^-1073..2^-1060, or the smallest normals] away from it on either side and the other end ordinary [2^-40..2^10, arbitrary doubles], g = amp x prod (1 - x / q_j), amp (x^3 + x), amp x (x - c) with slopes 2^-6..2^9, both modes and polynomial types, tolerances the converse clause accepts) (round 3: a midpoint of exactly 0 at pass 1..4 AND a bracket narrower than the tolerance AND a residual at 0 above the gate [brackets [-3a,a], [-7a,a], [-a,3a], [-5a,3a] ... with a = m 2^-4..2^-22, m a power of two or a 21-bit mantissa; controls at scale 1, 2^-40, root at 0, zero midpoint at pass 0], brackets with ends within a few binades of f64::MAX (wider than f64::MAX half of the time at 2^1023) and of its square / cube root with slopes down to 2^-1070, brackets inside the subnormal range, brackets 0..6 units in the last place wide at every binade 2^-1060..2^1020, 2- / 3- / 4-byte and word-like variable names; the converse clause is judged at the scale of the bracket: slope * tol/100 * X <= half the gate) (hardening: the whole problem rescaled to every decade 1e-20..1e20 and binade 2^-70..2^60 with brackets of relative width 1e-15..1e6, one root of size 1e-20..1 among ordinary roots for the completeness clause, degrees 8..24, initial guesses one ulp outside the bracket, signed-zero brackets, roots on both ends and the midpoint, caps next to 2^16 / 2^31 / 2^32 / 2^63 / usize::MAX, other variable names) requests: polynomials built from chosen roots (degree 0..7; roots at 0, on either bracket end, double roots, "
+RULE = ("(round 5: an initial guess within a relative 1e-16..1e-3 of, or 1..1000 units in the last place from, but not equal to a value the solver computes - the first midpoint, the root, a second midpoint, a bracket end from inside - on both sides, at 0.001..100 times tol/100, on brackets with a sign change, moderate scaling, budget >= 2000 and the loosest tolerance 1e-12..1e-3 the converse clause accepts for the bracket) (round 4: a root at 0 with one bracket end 1..60 units of 2^-1074 [or of 2^-1073..2^-1060, or the smallest normals] away from it on either side and the other end ordinary [2^-40..2^10, arbitrary doubles], g = amp x prod (1 - x / q_j), amp (x^3 + x), amp x (x - c) with slopes 2^-6..2^9, both modes and polynomial types, tolerances the converse clause accepts) (round 3: a midpoint of exactly 0 at pass 1..4 AND a bracket narrower than the tolerance AND a residual at 0 above the gate [brackets [-3a,a], [-7a,a], [-a,3a], [-5a,3a] ... with a = m 2^-4..2^-22, m a power of two or a 21-bit mantissa; controls at scale 1, 2^-40, root at 0, zero midpoint at pass 0], brackets with ends within a few binades of f64::MAX (wider than f64::MAX half of the time at 2^1023) and of its square / cube root with slopes down to 2^-1070, brackets inside the subnormal range, brackets 0..6 units in the last place wide at every binade 2^-1060..2^1020, 2- / 3- / 4-byte and word-like variable names; the converse clause is judged at the scale of the bracket: slope * tol/100 * X <= half the gate) (hardening: the whole problem rescaled to every decade 1e-20..1e20 and binade 2^-70..2^60 with brackets of relative width 1e-15..1e6, one root of size 1e-20..1 among ordinary roots for the completeness clause, degrees 8..24, initial guesses one ulp outside the bracket, signed-zero brackets, roots on both ends and the midpoint, caps next to 2^16 / 2^31 / 2^32 / 2^63 / usize::MAX, other variable names) requests: polynomials built from chosen roots (degree 0..7; roots at 0, on either bracket end, double roots, "
         "complex pairs), arbitrary polynomials of both kinds, brackets ordered/reversed/degenerate, init on the ends, "
         "on the midpoint, inside, outside, tolerances 1e-12..1e3 and <= 0, caps 0..5000, both modes; non-trivial = the "
         "model returns a value (`ok`), so containment and the residual gate are exercised; distinct = distinct request lines")
